@@ -36,6 +36,11 @@ def _wait_loops(ctx: Ctx, c: Collector) -> None:
     elems = awaited_elems(s)
     awaits = s.of_kind("await")
     first_await = min((e.idx for e in awaits), default=None)
+    # "there is something to wait for" (`if not waits: return`) is no condition on the waits
+    ctxs = [(x[1], x[2]) for x in elems]
+    vac = {gt for x in elems for gt in guard_terms(x[1]) if vacuous_nonempty(gt, ctxs)}
+    if vac:
+        elems = [(t_, tuple(g_ for g_ in gs_ if T.guard_term(g_) not in vac), i_, e_, m_) for t_, gs_, i_, e_, m_ in elems]
 
     def table_elems(table_field: str):
         out = []
@@ -133,7 +138,9 @@ def _wait_loops(ctx: Ctx, c: Collector) -> None:
         ok = False
         for e in final:
             k = g.key(e.stmt)
-            if g.postdominates(k, ENTRY) and not e.guards:
+            own = [x for x in guard_terms(e.guards) if x not in vac]
+            early = [r for r in s.returns if r.idx < e.idx]
+            if not own and (g.postdominates(k, ENTRY) or (vac and early and all(any(T.negate(v) in guard_terms(r.guards) for v in vac) for r in early))):
                 ok = True
         modes = {x[4] for x in elems}
         if "first" in modes:
